@@ -36,6 +36,9 @@ use protocol::Protocol;
 #[cfg(feature = "s3")]
 pub mod s3;
 
+#[cfg(feature = "verif_hooks")]
+pub mod verif_hooks;
+
 pub use self::error::{Error, ErrorKind};
 use self::record::{Call, Recording, Verb};
 
@@ -67,6 +70,10 @@ pub struct Transport {
 
     /// If recording is enabled, a list of all operations on all derived transports.
     recording: Arc<Mutex<Recording>>,
+
+    /// Verification interceptor, inherited by derived transports.
+    #[cfg(feature = "verif_hooks")]
+    interceptor: Option<Arc<dyn verif_hooks::Interceptor>>,
 }
 
 impl Transport {
@@ -103,6 +110,8 @@ impl Transport {
             record_calls: false,
             sub_path: String::new(),
             recording: Arc::new(Mutex::new(Recording::new())),
+            #[cfg(feature = "verif_hooks")]
+            interceptor: None,
         }
     }
 
@@ -188,11 +197,19 @@ impl Transport {
     /// implementations.
     pub async fn read(&self, path: &str) -> Result<Bytes> {
         self.record(Verb::Read, path);
+        #[cfg(feature = "verif_hooks")]
+        if self.interceptor.is_some() {
+            return self.hooked_read(path).await;
+        }
         self.protocol.read(path).await
     }
 
     pub async fn list_dir(&self, relpath: &str) -> Result<Vec<DirEntry>> {
         self.record(Verb::ListDir, relpath);
+        #[cfg(feature = "verif_hooks")]
+        if self.interceptor.is_some() {
+            return self.hooked_list_dir(relpath).await;
+        }
         self.protocol.list_dir(relpath).await
     }
 
@@ -212,34 +229,56 @@ impl Transport {
             sub_path,
             record_calls: self.record_calls,
             recording: Arc::clone(&self.recording),
+            #[cfg(feature = "verif_hooks")]
+            interceptor: self.interceptor.clone(),
         }
     }
 
     pub async fn write(&self, relpath: &str, content: &[u8], mode: WriteMode) -> Result<()> {
         self.record(Verb::Write, relpath);
+        #[cfg(feature = "verif_hooks")]
+        if self.interceptor.is_some() {
+            return self.hooked_write(relpath, content, mode).await;
+        }
         self.protocol.write(relpath, content, mode).await
     }
 
     pub async fn create_dir(&self, relpath: &str) -> Result<()> {
         self.record(Verb::CreateDir, relpath);
+        #[cfg(feature = "verif_hooks")]
+        if self.interceptor.is_some() {
+            return self.hooked_create_dir(relpath).await;
+        }
         self.protocol.create_dir(relpath).await
     }
 
     /// Return mtime, size, and other metadata about a file.
     pub async fn metadata(&self, relpath: &str) -> Result<Metadata> {
         self.record(Verb::Metadata, relpath);
+        #[cfg(feature = "verif_hooks")]
+        if self.interceptor.is_some() {
+            return self.hooked_metadata(relpath).await;
+        }
         self.protocol.metadata(relpath).await
     }
 
     /// Delete a file.
     pub async fn remove_file(&self, relpath: &str) -> Result<()> {
         self.record(Verb::RemoveFile, relpath);
+        #[cfg(feature = "verif_hooks")]
+        if self.interceptor.is_some() {
+            return self.hooked_remove_file(relpath).await;
+        }
         self.protocol.remove_file(relpath).await
     }
 
     /// Delete a directory and all its contents.
     pub async fn remove_dir_all(&self, relpath: &str) -> Result<()> {
         self.record(Verb::RemoveDirAll, relpath);
+        #[cfg(feature = "verif_hooks")]
+        if self.interceptor.is_some() {
+            return self.hooked_remove_dir_all(relpath).await;
+        }
         self.protocol.remove_dir_all(relpath).await
     }
 
